@@ -256,7 +256,7 @@ func propC09(c *Ctx) {
 	// ---- R9.5 -----------------------------------------------------------
 	c.Rule("R9.5", "row creation and scalar broadcast", 2)
 	{
-		scan := w.Fn("dig", "scan")
+		scan, _, _ := scanAnchor(w)
 		getRow := w.Fn("dig", "(*Result).GetRow")
 		hasKind := w.Fn("dig", "atype.hasKind")
 		okRow := false
@@ -357,8 +357,7 @@ func loopCollectionsAny(in ssa.Instruction) []ssa.Value {
 // propC09Walk: the recursion table of scan.
 func propC09Walk(c *Ctx) {
 	w := c.W
-	scan := w.Fn("dig", "scan")
-	input, tParam := scan.Params[2], scan.Params[3]
+	scan, input, tParam := scanAnchor(w)
 	fElem, fFields, fStatic, fSize := w.Field("dig", "atype", "elem"), w.Field("dig", "atype", "fields"), w.Field("dig", "atype", "static"), w.Field("dig", "atype", "size")
 	decode := w.Fn("bint", "Decode")
 	// offset(v): v == int(bint.Decode(input[P:P+32])) → returns P
